@@ -446,6 +446,11 @@ fn op_authorize(world: &J, op: &J) -> R<J> {
         Ok(_) => fail(),
         Err(_) => json!(["reject"]),
     };
+    let partial = {
+        let ps: J = ffi::is_authorized_partial_json_str(&call.to_string()).ok().and_then(|t| serde_json::from_str(&t).ok()).unwrap_or(J::Null);
+        let pj = ffi::is_authorized_partial_json(call.clone()).unwrap_or(J::Null);
+        if ps["type"] == pj["type"] && ps["response"]["decision"] == pj["response"]["decision"] { partial } else { json!(["ok", "split"]) }
+    };
     let via_typed: J = match serde_json::from_value::<ffi::AuthorizationCall>(call) { Ok(c) => serde_json::to_value(ffi::is_authorized(c)).unwrap_or(J::Null), Err(_) => J::Null };
     let f = if project_ffi_authz(&via_str) == project_ffi_authz(&ans) && project_ffi_authz(&via_typed) == project_ffi_authz(&ans) && via_str["type"] == ans["type"] && via_typed["type"] == ans["type"] { project_ffi_authz(&ans) } else { json!(["split"]) };
     Ok(json!({"ffi": f, "partial": partial, "api": api_authorize(world, k, j, validate, ri)?}))
